@@ -361,6 +361,11 @@ class RealBackend(object):
             import random as _r
             self.probe_rng = _r.Random(spec.get("probe_seed", 0))
         self.misc_futures = []
+        self.outcome_rate = spec.get("outcome_rate", 0)
+        self.first_outcome = {}
+        if self.outcome_rate and self.probe_rng is None:
+            import random as _r
+            self.probe_rng = _r.Random(spec.get("probe_seed", 0))
         self.flush_hook = None
         self.root = None
         self.root_exc = None
@@ -624,7 +629,7 @@ class RealBackend(object):
 
     def const(self, inst, v):
         f = A.ConstFuture(v)
-        if self.probe_rng is not None:
+        if self.probe_rng is not None and len(self.misc_futures) < 200:
             self.misc_futures.append(f)
         return f
 
@@ -673,8 +678,51 @@ class RealBackend(object):
     def _enter_body(self, inst):
         self.chain.append(inst)
         inst.nstep += 1
-        if self.probe_rng is not None and self.probe_rng.random() < self.probe_rate:
+        if self.probe_rng is not None and self.probe_rate and self.probe_rng.random() < self.probe_rate:
             self._probe_all("step of %s" % inst.token)
+        if self.outcome_rate and self.probe_rng.random() < self.outcome_rate:
+            self._probe_outcomes("step of %s" % inst.token)
+
+    def _probe_outcomes(self, where):
+        """C10 inside running computations: a computed future keeps reporting the one outcome it
+        was first seen with - through value(), error(), call and is_computed()."""
+        objs = []
+        for inst in self.insts.values():
+            if inst.task is not None:
+                objs.append(("task %s" % inst.token, inst.task))
+        for tok, it in self.items.items():
+            objs.append(("item %s" % tok, it))
+        for i, f in enumerate(self.misc_futures):
+            objs.append(("future #%d" % i, f))
+        self.probes["outcome_probe_points"] += 1
+        for name, f in objs:
+            if not f.is_computed():
+                continue
+            self.probes["computed_futures_reread"] += 1
+            try:
+                e = f.error()
+                if e is None:
+                    cur = ("V", repr(f.value()), repr(f()))
+                else:
+                    cur = ("E", id(e), type(e).__name__)
+                    try:
+                        f.value()
+                        self.viol("C10", "stable-outcome", "%s has error() %s but value() returned (at %s)" % (name, cur[2], where))
+                    except BaseException as e2:
+                        if e2 is not e:
+                            self.viol("C10", "stable-outcome", "%s: value() raised %s, error() is %s (at %s)" % (name, type(e2).__name__, cur[2], where))
+                if not f.is_computed():
+                    self.viol("C10", "stable-outcome", "%s no longer computed after being read (at %s)" % (name, where))
+            except HarnessError:
+                raise
+            except BaseException as e3:
+                self.viol("C10", "stable-outcome", "reading computed %s raised %s (at %s)" % (name, type(e3).__name__, where))
+                continue
+            old = self.first_outcome.get(id(f))
+            if old is None:
+                self.first_outcome[id(f)] = (cur, f)
+            elif old[0] != cur:
+                self.viol("C10", "stable-outcome", "%s first reported %r, now %r (at %s)" % (name, old[0][:2], cur[:2], where))
 
     def _probe_all(self, where):
         """C18(c): str / repr / dump of every live asynq object, in whatever state it is in now."""
@@ -1148,8 +1196,10 @@ class RealBackend(object):
             self.probes["flush_in_nested_wait"] += 1
         if self.flush_hook is not None:
             self.flush_hook(batch)
-        if self.probe_rng is not None and self.probe_rng.random() < self.probe_rate:
+        if self.probe_rng is not None and self.probe_rate and self.probe_rng.random() < self.probe_rate:
             self._probe_all("flush body of %s" % batch.bid)
+        if self.outcome_rate and self.probe_rng.random() < self.outcome_rate:
+            self._probe_outcomes("flush body of %s" % batch.bid)
         plan = self.flush_faults.get("%d#%d" % (kind, ordn))
         items = list(batch.items)
         for idx, it in enumerate(items):
@@ -1325,8 +1375,11 @@ class RealBackend(object):
         self.root_error = None
         if self.root is not None and self.root.task is not None and self.root.task.is_computed():
             self.root_error = self.root.task._error
-        if self.probe_rng is not None:
+        if self.probe_rng is not None and self.probe_rate:
             self._probe_all("end of computation")
+        if self.outcome_rate:
+            self._probe_outcomes("end of computation")
+        self.first_outcome = {}
         self.live_ctx = []
         self.before_after = []
         self.prio_log = []
